@@ -1,0 +1,24 @@
+package misc
+
+import (
+	"bytes"
+	"encoding/json"
+	"strings"
+)
+
+// RegoString renders a text as a Rego string literal, quotes included (Rego string literals are JSON strings)
+func RegoString(s string) string {
+	var b bytes.Buffer
+	enc := json.NewEncoder(&b)
+	enc.SetEscapeHTML(false)
+	if err := enc.Encode(s); err != nil {
+		return "\"\""
+	}
+	return strings.TrimSuffix(b.String(), "\n")
+}
+
+// RegoStringContent renders a text so it can be pasted between the double quotes of a Rego string literal
+func RegoStringContent(s string) string {
+	quoted := RegoString(s)
+	return quoted[1 : len(quoted)-1]
+}
